@@ -17,33 +17,39 @@ LEVEL_TEXT = ('Partial. Coq theorems over hand models tied to the source by exac
               '(2) create_edges, for EVERY connectivity table: each undirected edge exactly once, left element/side hold the row\'s '
               'directed pair (boundary edges keep their owner\'s orientation), right element/side hold the reversed pair and -1 is '
               'returned only when no triangle does, holders unique when no directed pair repeats; (3) combine_mesh: node/element '
-              'offsets, ranges, every node used, geometry untouched, and with pairwise distinct names blocks / node sets / side sets '
-              'of the second mesh are shifted and nothing is lost; with equal names members ARE lost (C13_combine_name_clash_refuted, '
-              'known finding F8); (4) reader index arithmetic: 1-based to 0-based in range and one-to-one, blocks are consecutive '
+              'offsets, ranges, every node used, geometry untouched, and for ANY block / node-set / side-set names (distinct or equal; the '
+              'model follows the repaired code 157ff14, which concatenates on equal names) no member is lost: every member of the first mesh '
+              'and every shifted member of the second mesh is found under its name, member counts add up, members stay in range '
+              '(formerly known finding F8, now a fixed finding replayed every run); (4) reader index arithmetic: 1-based to 0-based in range and one-to-one, blocks are consecutive '
               'ranges covering all elements, the 6-node permutation maps Exodus rows to the native vertex/face layout. '
-              '(5) order elevation, numbering only: the ids given to vertex / (edge,k) / (element,k) slots are exactly 0..nV+nE(p-1)+nT*nInt-1, each once, '
-              'reversed for the right element (slot contents compared with the implementation). NOT proved: that every slot is written at the '
-              'reference element\'s positions (conformity of the connectivity) and affine placement of coordinates -- only evaluated on the '
-              'implementation\'s elevated meshes (orders 2..5, with and without bubble) as tests; netCDF4 is not installed, so the '
+              '(5) order elevation, connectivity: for the write-log model of create_higher_order_mesh_from_simplex_mesh (compared entry by entry with '
+              'the implementation) and every certified reference element (checker pe_okb, proved sound, evaluated on the implementation\'s tables for '
+              'ALL orders 1..5 with and without bubble on every run) and every connectivity without degenerate sides: no write is overwritten, vertex ids '
+              'sit at the vertex positions, edge ids nV+e(p-1)+k at the face-interior positions of the left element in order and of the right element in '
+              'reversed order (neighbours share edge nodes in matching order), interior ids at the interior positions, every id 0..nV+nE(p-1)+nT*nInt-1 '
+              'is stored (no unused node), distinct slots get distinct ids (no duplicates), everything stored is in range; shared edge points agree '
+              'up to delta|A-B| for 1-D nodes symmetric up to delta (Lobatto symmetry certificate evaluated in Coq over Q, delta = 1e-14). '
+              'NOT proved: affine placement of the node COORDINATES for every element (tests only); '
+              'netCDF4 is not installed, so the '
               'Exodus reader is executed against an in-memory stand-in for netCDF4.Dataset, not against real files.')
 TECHNIQUE = 'Coq proof over hand models (nat/Z/list; coordinates over R in theorems) + vm_compute correspondence with exact integer comparison'
 GEN = []
-TARGETS = ['model/M_C13_Elevate.vo', 'proofs/L_C13_Elevate.vo', 'model/M_C13_Struct.vo', 'model/M_C13_Edges.vo', 'model/M_C13_Combine.vo', 'model/M_C13_Read.vo',
+TARGETS = ['model/M_C13_Elevate.vo', 'proofs/L_C13_Elevate.vo', 'proofs/L_C13_Elev2.vo', 'model/M_C13_Struct.vo', 'model/M_C13_Edges.vo', 'model/M_C13_Combine.vo', 'model/M_C13_Read.vo',
            'proofs/L_C13_Struct.vo', 'proofs/L_C13_Edges.vo', 'proofs/L_C13_Combine.vo', 'proofs/L_C13_Read.vo', 'proofs/L_C13_Top.vo']
 COQ_FILES = ['base/Num.v', 'model/M_C13_Struct.v', 'model/M_C13_Edges.v', 'model/M_C13_Combine.v', 'model/M_C13_Read.v',
              'proofs/L_C13_Struct.v', 'proofs/L_C13_Edges.v', 'proofs/L_C13_Combine.v', 'proofs/L_C13_Read.v', 'proofs/L_C13_Top.v',
-             'model/M_C13_Elevate.v', 'proofs/L_C13_Elevate.v', 'props/P_C13.v']
+             'model/M_C13_Elevate.v', 'proofs/L_C13_Elevate.v', 'proofs/L_C13_Elev2.v', 'props/P_C13.v']
 TRUSTED = ['Coq 8.16.1 kernel + vm_compute (no native_compute)',
            'hand-written models coq/model/M_C13_*.v, tied by exact comparison of connectivity, edge tables, merged meshes and reader outputs',
            'harness: exact float -> rational conversion of coordinates, SciPy Delaunay as a generator of valid triangulations',
            'in-memory stand-in for netCDF4.Dataset (the package is absent): the Exodus reader code runs unchanged on it, the binary file layer does not']
 ASSUMPTIONS = ['np.linspace returns strictly increasing arrays for the extents used (checked exactly on every generated case)',
-               'order elevation is not covered by a theorem (tests only)',
+               'order elevation: connectivity theorems are about the write-log model (functional array updates, last write wins); coordinates of elevated nodes are tested only',
                'real Exodus files are not read in this sandbox (netCDF4 missing); ReadMesh.read_json_mesh is exercised on real files written by the harness',
                'numpy/jax indexing, unique and concatenate behave as modelled (tied by the correspondence, not proved)']
 RULE = ('cases: structured sizes 2..7 x 2..7 with random extents; random Delaunay triangulations (6..30 points, optional hole, random cyclic '
         'rotation per element, occasionally one flipped element) through create_edges; random pairs of meshes with random block / node-set / '
-        'side-set names (distinct or clashing) through combine_mesh; abstract Exodus descriptions (tri3/tri6, 1..3 blocks, named and unnamed sets) '
+        'side-set names (mostly clashing, some distinct) through combine_mesh; abstract Exodus descriptions (tri3/tri6, 1..3 blocks, named and unnamed sets) '
         'and JSON files through the readers; elevation orders 2..5 with and without bubble (tests).  Non-trivial = at least 2 elements; '
         'distinct = distinct inputs')
 IMPORTS = ['From OV.model Require Import M_C13_Struct M_C13_Edges M_C13_Combine M_C13_Read M_C13_Elevate.']
@@ -384,9 +390,8 @@ def part_combine(ctx, model_ok):
     r = ctx.rng('combine')
     pairs = []
     for i in range(ctx.n(24, 200)):
-        if i % 3 == 2:      # clashing names allowed
-            pool1 = pool2 = NAMES[:5]
-        else:
+        pool1 = pool2 = NAMES[:5]      # equal names in both meshes are frequent
+        if i % 4 == 3:
             pool1, pool2 = NAMES[:4], NAMES[4:9]
         pairs.append((rand_mesh_with_sets(r, pool1), rand_mesh_with_sets(r, pool2)))
     pairs.append(F8_WITNESS)
@@ -637,7 +642,7 @@ def part_elevate(ctx, model_ok=False):
             c, t = Mesh.create_structured_mesh_data(r.randrange(2, 4), r.randrange(2, 4), [0., 1.], [0., 2.])
             pts, tris = np.asarray(c), np.asarray(t).tolist()
         todo.append((order, bubble, pts, tris))
-    exprs, slots = [], []
+    exprs, slots, exprs2, full = [], [], [], []
     for order, bubble, pts, tris in todo:
         base = Mesh.construct_mesh_from_basic_data(jnp.array(pts), jnp.array(tris, dtype=jnp.int64), {'b': jnp.arange(len(tris))},
                                                    None, {'s': jnp.array([[0, 0]])})
@@ -677,15 +682,48 @@ def part_elevate(ctx, model_ok=False):
         inter = conns[:, np.asarray(pe.interiorNodes)].tolist() if nint else []
         slots.append([i for l in left for i in l] + [i for l in right for i in l] + [i for l in inter for i in l])
         exprs.append('enc_elev %d %d %d %d %d' % (len(pts), len(ec), len(tris), m1, nint))
+        pe_term = '(mk_pe %d %s %s %s %s %s)' % (int(ref.shape[0]), zl(np.asarray(pe.vertexNodes)), zl(faces[0][1:-1]), zl(faces[1][1:-1]),
+                                                  zl(faces[2][1:-1]), zl(np.asarray(pe.interiorNodes)))
+        exprs2.append('enc_elevated %s %d %d %s' % (pe_term, len(pts), m1, zll(tris)))
+        full.append([int(i) for i in conns.ravel()])
         for b in bad:
             ctx.fail('conclusion', 'order elevation (order %d%s, %d elements): %s' % (order, ' bubble' if bubble else '', len(tris), b),
                      case=dict(part='elevate', order=order, bubble=bubble, coords=np.asarray(pts).tolist(), conns=tris), concrete=True)
     if model_ok:
+        # K certificates over the complete configuration set: reference elements of order 1..5 with and without bubble, Lobatto nodes 1..5
+        from optimism import Interpolants
+        cexprs, cnames = [], []
+        for order in range(1, 6):
+            for bub in (False, True):
+                el = Interpolants.make_parent_element_2d_with_bubble(order) if bub else Interpolants.make_parent_element_2d(order)
+                fc = np.asarray(el.faceNodes)
+                cexprs.append('pe_cert (mk_pe %d %s %s %s %s %s) %d' % (int(np.asarray(el.coordinates).shape[0]), zl(np.asarray(el.vertexNodes)),
+                                                                       zl(fc[0][1:-1]), zl(fc[1][1:-1]), zl(fc[2][1:-1]), zl(np.asarray(el.interiorNodes)), order - 1))
+                cnames.append('reference element order %d%s: position tables partition the nodes' % (order, ' bubble' if bub else ''))
+            xn = [Fraction(float(x)) for x in np.asarray(Interpolants.get_lobatto_nodes_1d(order))]
+            cexprs.append('lobatto_sym_cert [%s] (1 # 100000000000000)' % '; '.join('(%d # %d)' % (q.numerator, q.denominator) for q in xn))
+            cnames.append('Lobatto nodes of degree %d are symmetric about 1/2 within 1e-14' % order)
+        cres = C.coq_eval(IMPORTS, cexprs, 'C13k', shard=40)
+        for nm, got in zip(cnames, cres):
+            ctx.count('certificates')
+            if got != [1]:
+                ctx.fail('certificate', 'certificate failed: ' + nm, case=dict(part='certificate', what=nm))
+        ctx.cov['certificates_exhaustive_over'] = 'orders 1..5 x {plain, bubble} reference elements; Lobatto degrees 1..5'
         res = C.coq_eval(IMPORTS, exprs, 'C13v', shard=40)
         for (order, bubble, pts, tris), want, got in zip(todo, slots, res):
             if got != want:
                 ctx.fail('correspondence', 'order elevation (order %d%s): the ids in the (edge,k)/(element,k) slots differ from the model numbering'
                          % (order, ' bubble' if bubble else ''), case=dict(part='elevate', order=order, bubble=bubble, conns=tris))
+            ctx.count('model_vs_impl_comparisons')
+        res2 = C.coq_eval(IMPORTS, exprs2, 'C13w', shard=4, timeout=900)
+        for (order, bubble, pts, tris), want, got in zip(todo, full, res2):
+            case = dict(part='elevate', order=order, bubble=bubble, conns=tris)
+            if got[0] != 1:
+                ctx.fail('correspondence', 'order elevation (order %d%s): the reference element tables do not partition the node positions (certificate pe_okb fails)'
+                         % (order, ' bubble' if bubble else ''), case=case)
+            if got[1:] != want:
+                ctx.fail('correspondence', 'order elevation (order %d%s): connectivity of the write-log model differs from the implementation'
+                         % (order, ' bubble' if bubble else ''), case=case)
             ctx.count('model_vs_impl_comparisons')
 
 
